@@ -40,7 +40,7 @@ CHECKS = {
          "TLC evaluates the documented order (set-valued where the statement leaves ties open)", "5 C16"),
  "C17": ("Runner.tla / RunnerTrace.tla", "TLC trace validation: the k-th executed case must be the benchmark instance, argument, const and type the k-th runnable printed row names (after filtering, sorting, reversal), and an argument list is evaluated at most once per process and shared by the generic instances",
          "identity of (label, received value) pairs logged by generated benchmark bodies", "5 C17"),
- "C20": ("Runner.tla / RunnerTrace.tla", "TLC trace validation: the printed tree is parsed back from glyph groups alone (depth, branch/corner vs. later siblings, vertical bars vs. ancestors), must contain each selected group/benchmark/argument/thread-count row exactly once in sorted depth-first order, (ignored) marks only on ignored benchmarks, samples/iters cells equal to the statistics the runner computed, continuation rows attached to a benchmark",
+ "C20": ("Runner.tla / Painter.tla / Columns.tla / RunnerTrace.tla", "TLC: MC_Painter (glyph state machine over all forests) and MC_Columns (padding state machine over all painting plans with thread-count rows: cells stay under the headings iff the initial span covers every label; the span of the pinned code is the expected-to-fail variant, defect F11); trace validation: the printed tree is parsed back from glyph groups alone (depth, branch/corner vs. later siblings, vertical bars vs. ancestors), must contain each selected group/benchmark/argument/thread-count row exactly once in sorted depth-first order, (ignored) marks only on ignored benchmarks, samples/iters cells equal to the statistics the runner computed, continuation rows attached to a benchmark, every cell-carrying line starts its cells under the first heading and keeps the column separators under those of the heading line while no value is wider than its column",
          "parse-back and comparison done by TLC on lexed lines", "5 C20"),
  "C18": ("BigNat.tla / Fmt.tla / MC_Fmt / NumTrace.tla", "TLC: MC_Fmt checks parse-back bound, digit budget, no exponent / trailing zeros of Fmt.tla over every value 0..12000 ps and all unit / 10^k boundary neighbourhoods up to 2^128-1; every Display string of FineDuration (default, precisions, widths), format_bytes and DisplayThroughput on generated inputs is compared with Fmt.tla (durations exactly; sizes and throughputs within the +-2^-50 relative interval the statement grants)",
          "model checking of the format's theorems + TLC as exact evaluator over recorded calls", "5 C18"),
